@@ -2,6 +2,7 @@ import DEvo.Props.C08
 import DEvo.Mut.Steps
 import DEvo.Mut.Env
 import DEvo.Generated.Tables
+import DEvo.Sql.DbState
 
 /-! # C04 — all upgrade paths converge: fresh install, stepwise, direct
 
@@ -120,5 +121,29 @@ theorem C04_cex_relabel_to_other_label :
 mutation the optimiser did not mark only if its set of removed mutations goes by identity
 (`C03_filter_by_identity`), which is what the source says (read by the translator on every run) -/
 theorem C04_source_hash_identity : DEvo.Generated.mutationHashById = true := by decide
+
+/-! ## a direct upgrade runs several versions' Meta changes against ONE bookkeeping of indexes -/
+
+open DEvo.Sql in
+/-- an entry that one version drops and a later version adds again is created again in a direct upgrade,
+like on every other path: once the drop has taken the index out of the bookkeeping, the later lookup by
+columns finds nothing (`findIndex = none` is the condition under which CREATE INDEX is emitted), and
+after the re-creation it is found -/
+theorem C04_dropped_entry_is_recreated (s s1 s2 : DbState) (t name name' : String) (cols : List String) (u : Bool)
+    (tb : Tbl) (ht : getTbl s t = some tb) (hw : tb.WF)
+    (hdrop : removeIndex s t name u = .ok s1)
+    (honly : ∀ ix ∈ tb.dict u, ix.cols = cols → ix.name = name)
+    (hadd : addIndex s1 t name' cols u = .ok s2) :
+    findIndex s1 t cols u = none ∧ ∃ ix, findIndex s2 t cols u = some ix ∧ ix.cols = cols :=
+  ⟨remove_then_find s s1 t name cols u tb ht hw hdrop honly,
+   let ⟨ix, h1, h2, _⟩ := find_after_add s1 s2 t name' cols u hadd; ⟨ix, h1, h2⟩⟩
+
+/-- every drop in the unique_together / index_together changes goes through the bookkeeping (`remove_index`,
+directly or inside `drop_index_by_name`), every creation registers (`add_index`, directly or inside
+`create_unique_index`): the calls of the three functions, in source order (read by the translator on every run) -/
+theorem C04_source_together_changes_keep_state : DEvo.Generated.togetherStateCalls =
+    ["change_meta_unique_together: remove_index, get_drop_unique_constraint_sql, get_new_index_name, create_unique_index",
+     "change_meta_index_together: drop_index_by_name, get_default_index_together_name, add_index",
+     "drop_index_by_name: remove_index, get_drop_index_sql"] := by decide
 
 end DEvo.Props.C04
